@@ -348,7 +348,7 @@ func runC06(r *simrt.Run, tier Tier) Outcome {
 			m.out[f.Key()] = f
 			m.ever[predID(f)] = true
 		}
-		t = c06Topo{name: "temporal-adapter(teeing temporal store)", store: factstore.NewTemporalFactStoreAdapter(tee), onlyNewAdds: true}
+		t = c06Topo{name: "temporal-adapter(teeing temporal store)", store: factstore.NewTemporalFactStoreAdapter(tee)}
 	case topoTemporalAt:
 		at := time.Unix(0, int64(r.Choose(1000, "c06.at"))*1e9).UTC()
 		t = c06Topo{name: "temporal-adapter-at", store: factstore.NewTemporalFactStoreAdapterAt(factstore.NewTemporalStore(), at), exact: true}
